@@ -62,3 +62,21 @@ def replay_origin_params(p):
     if not bad and ok != (change != 2):
         bad = f'FILE-ID check accepted={ok} with change={change}'
     return {'reproduced': bad != '', 'ok': bad == '', 'detail': bad or 'as specified'}
+
+
+def replay_name_rule(p):
+    """K5 counterexample: a string on which the package's name rule and [A-Z0-9_-]+ disagree (in the mode)."""
+    sys.stderr = io.StringIO()
+    import re
+    from dliswriter import high_compatibility_mode
+    from dliswriter.utils.internal.value_checkers import validate_string
+    w = p['args'][0]
+    with high_compatibility_mode():
+        try:
+            validate_string(w)
+            ok = True
+        except ValueError:
+            ok = False
+    want = re.fullmatch(r'[A-Z0-9_-]+', w) is not None
+    bad = '' if ok == want else f'in high-compatibility mode the name {w!r} is accepted={ok}; [A-Z0-9_-]+ says {want}'
+    return {'reproduced': bad != '', 'ok': bad == '', 'detail': bad or 'as specified', 'argmap': {'s': w}}
